@@ -405,7 +405,12 @@ impl VM {
     pub fn fork_current_thread(&mut self, jump_target: u32) -> Result<()> {
         // It is a programmer error to ask for a thread to be forked when none exists,
         // so we forward the error immediately.
-        let new_thread = self.current_thread_mut()?.fork(jump_target);
+        // The instruction that forks is only charged to the current thread once it has
+        // finished executing, so the copy of the gas usage made while forking does not
+        // include it even though the new thread has executed that instruction too.
+        let forking_cost = self.current_instruction()?.min_gas_cost();
+        let mut new_thread = self.current_thread_mut()?.fork(jump_target);
+        new_thread.consume_gas(forking_cost);
         self.enqueue_thread(new_thread);
 
         Ok(())
